@@ -146,16 +146,16 @@ def _counterexample(ctx, r, name):
 
 
 def headerlookup(ctx):
-    small = (["u1"], [], [False], ["slash"], ["full", "partial"])
+    small = (["u1"], [], [False], ["slash"], ["full"])
     # 1. the ideal (atomic fill) satisfies the contract with both invalidation rules, evictions included (capacity 1)
     n = 5 if ctx.quick else 6
-    variants = (("flush", "atomic"), ("precise", "atomic"), ("flush", "guarded")) + (() if ctx.quick else (("precise", "guarded"),))
+    variants = (("flush", "atomic"), ("flush", "guarded")) + (() if ctx.quick else (("precise", "atomic"), ("precise", "guarded")))
     for inval, fill in variants:
-        r = ctx.tlc_mc("HeaderLookup_Gen", "SPECIFICATION GSpec\n" + _hl_consts(n - 1 if ctx.quick and fill == "guarded" else n, 1, inval, fill, ["u1"], ["a"], [True], ["slash"]) + "VIEW view\n" + HL_INV,
+        r = ctx.tlc_mc("HeaderLookup_Gen", "SPECIFICATION GSpec\n" + _hl_consts(n - 1 if fill == "guarded" else n, 1, inval, fill, ["u1"], ["a"], [True], ["slash"]) + "VIEW view\n" + HL_INV,
                        label="HeaderLookup, fill %s, invalidation %s" % (fill, inval), timeout=1500)
         ctx.log("HeaderLookup (fill %s, invalidation %s): %d distinct states" % (fill, inval, r.distinct))
     # every action taken (the code's shape; only the invariants that do not depend on the fill being atomic)
-    r = ctx.tlc_mc("HeaderLookup_Gen", "SPECIFICATION GSpec\n" + _hl_consts(4, 1, "flush", "twostep", ["u1"], ["a"], [True, False], ["slash"]) + "VIEW view\n"
+    r = ctx.tlc_mc("HeaderLookup_Gen", "SPECIFICATION GSpec\n" + _hl_consts(3, 1, "flush", "twostep", ["u1"], ["a"], [True], ["slash"]) + "VIEW view\n"
                    "INVARIANTS TypeOK OnlyFoundItemsCached FloorIsDelivered\nPROPERTIES MissingPassesUntouched\n", coverage=True,
                    label="HeaderLookup code shape, coverage", timeout=1500)
     dead = [a for a in r.coverage_zero if a in ("Write", "Deliver", "Req", "ReqStart", "ReqFill", "Reload")]
@@ -177,7 +177,7 @@ def headerlookup(ctx):
                 b[0]["tag"] = tag
                 behs.append(b)
     # 3. schedules
-    nb = 200 if ctx.quick else 2000
+    nb = 200 if ctx.quick else 1500
     pcs = ["a"] if ctx.quick else ["a", "b"]
     sim = ctx.tlc_simulate("HeaderLookup_Gen", "SPECIFICATION GSimSpec\n" + _hl_consts(18, 128, "flush", "twostep", ["u1", "u2"], pcs, [True, False], ["slash", "lead"]),
                            num=nb, depth=19)
